@@ -73,9 +73,11 @@ type shareProgram struct {
 	window              bool
 	scenario            int // 0 readers only, 1 writers only, 2 mixed
 	fillSeed            uint64
-	fillMode            int  // 0 arbitrary bit patterns, 1 ordinary values, 2 all zero, 3 one constant, 4 runs of equal samples
-	nest                bool // views are obtained by slicing twice
-	build               int  // how the buffer came to be (see buildShared)
+	fillMode            int       // 0 arbitrary bit patterns, 1 ordinary values, 2 all zero, 3 one constant, 4 runs of equal samples
+	nest                bool      // views are obtained by slicing twice
+	build               int       // how the buffer came to be (see buildShared)
+	preOps              []shareOp // operations applied to the whole shared buffer before the tasks start (the buffer has a history)
+	preRole             []int
 	concFirst           bool // the concurrent execution comes before the sequential reference (state a library initialises on first use)
 	raw                 bool // the tasks share the built header itself, not a Slice of it
 	tasks               []shareTask
@@ -141,6 +143,19 @@ func drawShareProgram(prog *simrt.Stream, b Bounds) *shareProgram {
 	p.nest = prog.Draw(3) == 2
 	p.build = prog.Draw(4)
 	p.concFirst = prog.Draw(2) == 1
+	for n := prog.Draw(4); n > 0; n-- {
+		// the buffer was used before it came to be shared: header state a
+		// library derives lazily (scratch, memos) then already exists
+		role := prog.Draw(2)
+		op := shareOp{a: uint64(prog.Draw(1 << 16)), b: uint64(prog.Draw(1 << 16)), c: uint64(prog.Draw(1 << 16))}
+		if role == roleReader {
+			op.kind = prog.Draw(numReaderOps)
+		} else {
+			op.kind = prog.Draw(numWriterOps)
+		}
+		p.preOps = append(p.preOps, op)
+		p.preRole = append(p.preRole, role)
+	}
 	p.raw = !p.window && prog.Draw(2) == 1
 	// Tasks and their operations are nested units, each preceded by the draw
 	// that decides whether it exists (0 = stop). Frame ranges are handed out
@@ -480,7 +495,20 @@ func (h *H[T]) writerOp(d *uint64, parent, own, ro *signal.Buffer[T], op shareOp
 func (h *H[T]) execShare(p *shareProgram, sim *simrt.Sim, label string) *shareResult {
 	simrt.Begin(sim)
 	var big, shared *signal.Buffer[T]
-	sim.Setup(func() { big, shared = buildShared[T](p) }) // (every library call is made by a simulated task)
+	sim.Setup(func() { // (every library call is made by a simulated task)
+		big, shared = buildShared[T](p)
+		var d uint64
+		for i, op := range p.preOps {
+			func() {
+				defer func() { recover() }()
+				if p.preRole[i] == roleReader {
+					h.readerOp(&d, shared, shared, op)
+				} else {
+					h.writerOp(&d, shared, shared, nil, op)
+				}
+			}()
+		}
+	})
 	n := len(p.tasks)
 	res := &shareResult{digests: make([][]uint64, n), panicked: make([]int, n), rogue: make([]any, n)}
 	est := 0
